@@ -11,6 +11,13 @@ use and kept for the whole case: it can be entered again nested in itself, neste
 `enter <mode> dec@<i>` runs the block as the body of a function decorated with that same shared object (`@T[i]`;
 `__call__` builds a new context object per call, so for the model this is a block on an object of its own).
 
+A block ends with `exit ok` (the body runs to its end), `exit exc` (the body raises an `Exception` subclass), `exit base`
+(the body raises a `BaseException` subclass that is not an `Exception`) or `exit cancel` (the task is CANCELLED while it is
+suspended at a scripted point inside the body: the body parks on a future that never completes, `task.cancel()` is called
+from the event loop, `asyncio.CancelledError` is raised at that await).  The exception is caught right outside the block
+(and the cancellation taken back with `uncancel()`), so the program goes on.  `rollback` / `commitnow` call `tx.rollback()` /
+`tx.commit()` on the `Transaction` object at any place of a body; commands may follow in the same block.
+
 Every event is executed through `Cache.transaction(mode)` / the `Cache` command facade on the transactional
 cache, and every command also on a second `Cache` whose `Memory` started as a copy of the first ("direct").
 After each event the raw backend stores are read without touching them (the outside observer).
@@ -44,6 +51,13 @@ CONFIGS = {
 
 class Boom(Exception):
     """the exception a scripted body raises to leave a block"""
+
+
+class BaseBoom(BaseException):
+    """a user-defined BaseException that is not an Exception (like KeyboardInterrupt / SystemExit / GeneratorExit)"""
+
+
+ENDS = ("ok", "exc", "base", "cancel")
 
 
 def model_key(name: str):
@@ -147,6 +161,7 @@ class TxRunner:
         self.objs: dict = {}                        # shared context objects '@i' -> TransactionContextDecorator
         self.used_outer: set[str] = set()           # shared objects that have opened an outermost block
         self.after_reentry = False                  # a re-entered block of the owning object has ended, outer block still open
+        self.after_explicit = ""                    # 'rollback' / 'commitnow' was called earlier in the block that is still open
 
     def bump(self, k: str):
         self.stats[k] = self.stats.get(k, 0) + 1
@@ -317,6 +332,8 @@ class TxRunner:
                 self._classify(w)
                 if self.after_reentry and w[0] in ("set", "setmany", "incr", "delete", "delmany", "expire"):
                     self.bump("write_after_reentered_block_ended")
+                if self.after_explicit and w[0] in ("set", "setmany", "incr", "delete", "delmany", "expire"):
+                    self.bump(f"write_after_explicit_{self.after_explicit}_in_the_same_block")
             try:
                 a = await self.r_tx._exec(w)
             except Exception as exc:
@@ -358,11 +375,22 @@ class TxRunner:
                 self.trace.append((line, "tx=U " + await self.views()))
                 how = state["how"] = await self._block(it)
                 if outer:
-                    self._classify_end("commit" if how == "ok" else "exception")
-                    if how == "exc" and self.after_reentry:
+                    self._classify_end({"ok": "commit", "exc": "exception", "base": "base_exception", "cancel": "cancelled"}[how])
+                    if how != "ok" and self.after_reentry:
                         self.bump("exception_leaves_outer_block_after_reentered_block_ended")
+                    if how != "ok" and self.after_explicit:
+                        self.bump(f"exception_leaves_block_after_explicit_{self.after_explicit}")
+                elif how in ("base", "cancel"):
+                    self.bump(f"inner_block_left_by_{how}")
                 if how == "exc":
                     raise Boom()
+                if how == "base":
+                    raise BaseBoom()
+                if how == "cancel":
+                    # the task is cancelled by somebody else while it is suspended at this point of the body
+                    loop = asyncio.get_running_loop()
+                    loop.call_soon(asyncio.current_task().cancel)
+                    await loop.create_future()
             finally:
                 self.txs.pop()
                 self.frames.pop()
@@ -370,8 +398,10 @@ class TxRunner:
                     self.after_reentry = True
                 if not self.frames:
                     self.after_reentry = False
+                    self.after_explicit = ""
 
         res = "U"
+        came_out = "ok"
         try:
             if kind.startswith("dec"):
                 @self._context_object(kind, mode)
@@ -383,9 +413,17 @@ class TxRunner:
                 async with self._context_object(kind, mode) as tx:
                     await body(tx)
         except Boom:
-            pass
+            came_out = "exc"
+        except BaseBoom:
+            came_out = "base"
+        except asyncio.CancelledError:
+            came_out = "cancel"
+            asyncio.current_task().uncancel()
         except Exception as exc:  # an enter / commit / rollback that raises is itself a disagreement with the model
             res = f"X:{type(exc).__name__}"
+        if res == "U" and state["started"] and came_out != state["how"]:
+            # the caller must see the body's own exception / the cancellation - and nothing when the body ran to its end
+            res = f"X:caller_saw_{came_out}"
         if not state["started"]:     # `__aenter__` raised: run the block's events without a block, keep the trace aligned
             self.trace.append((line, f"tx={res} " + await self.views()))
             self.frames.append(kind)
@@ -423,6 +461,8 @@ class TxRunner:
                     res = f"X:{type(exc).__name__}"
                 self.trace.append((line, f"tx={res} " + await self.views()))
                 self.resync()
+                if self.frames:
+                    self.after_explicit = w[0]
                 continue
             await self._command(line)
         return "ok"
@@ -645,8 +685,9 @@ def pick_kind(rng, stack: list[str]) -> str:
 def gen_events(rng, maxlen: int, crossing: bool) -> list[str]:
     """one task's program: 1-3 outermost blocks (nested up to three times now and then), each block on a context
     object of its own, in decorator form, or on one of three shared context objects (re-entered nested in
-    themselves / in each other and re-used sequentially); commands, small time advances; ended by commit,
-    exception or explicit rollback.  Without `crossing` the TTLs (>= 1 s) and the total advance per case (< 1 s)
+    themselves / in each other and re-used sequentially); commands, small time advances, explicit tx.rollback() /
+    tx.commit() anywhere in a body (commands follow); every block ended by running to its end, by an `Exception`, by a
+    `BaseException` that is not an `Exception`, or by the task being cancelled at a suspension point inside the body.  Without `crossing` the TTLs (>= 1 s) and the total advance per case (< 1 s)
     keep the proviso true, leaving 1..7 ticks at commit for 1 s TTLs."""
     ttls = ["-", "-", "0", "8", "8", "16", "80"] if not crossing else ["-", "0", "1", "2", "4", "8", "16"]
     advs = [1, 1, 2, 3] if not crossing else [1, 2, 4, 8, 16]
@@ -674,7 +715,7 @@ def gen_events(rng, maxlen: int, crossing: bool) -> list[str]:
                 ev.append(enter(stack))
                 opened += 1
             elif opened > 1 and r < 0.35:
-                ev.append(f"exit {rng.choice(['ok', 'ok', 'exc'])}")
+                ev.append(f"exit {rng.choice(['ok', 'ok', 'ok', 'exc', 'exc', 'base', 'cancel'])}")
                 stack.pop()
                 opened -= 1
                 if rng.random() < 0.5:
@@ -694,9 +735,10 @@ def gen_events(rng, maxlen: int, crossing: bool) -> list[str]:
                 if w[0] in ("set", "incr", "delete", "expire") and rng.random() < 0.3:
                     # look at the key just written, from inside the transaction
                     ev.append(look_back(rng, w))
-        end = rng.choice(["ok", "ok", "ok", "exc"])
+        end = rng.choice(["ok", "ok", "ok", "ok", "ok", "exc", "base", "cancel"])
         while opened > 1:
-            ev.append(f"exit {end if end == 'exc' else rng.choice(['ok', 'exc'])}")
+            # an exception that leaves the outermost block usually comes from inside: the same kind leaves the inner blocks
+            ev.append(f"exit {end if end != 'ok' and rng.random() < 0.8 else rng.choice(['ok', 'exc', 'base', 'cancel'])}")
             opened -= 1
         ev.append(f"exit {end}")
         if rng.random() < 0.3:
@@ -716,12 +758,13 @@ def gen_case(rng, i: int) -> dict:
 def nesting_cases(rng=None):
     """Every nesting shape up to depth 3 over {object of its own, decorator form, shared object @0, shared object @1,
     decorator form with @0 as the decorator}
-    x every way of leaving each block {normally, by an exception caught right outside it}, with a write after every
+    x every way of leaving each block {normally, by an exception caught right outside it - an `Exception`, a `BaseException`
+    that is not one, or a cancellation (quick: the kind is drawn per block; thorough: each kind for all blocks)}, with a write after every
     block boundary and a read from inside; followed by a second outermost block that re-uses the first block's kind
     (for a shared object: sequential re-use of the same object, entered twice nested).  With `rng`: one mode per shape
     drawn from it (quick tier); without: all three modes."""
     kinds = ["", "dec", "@0", "@1", "dec@0"]
-    ends = ["ok", "exc"]
+    ends = ["ok", "X"]
     shapes = []
     for k1 in kinds:
         shapes.append((k1,))
@@ -731,18 +774,28 @@ def nesting_cases(rng=None):
                 shapes.append((k1, k2, k3))
     for shape in shapes:
         for mode in ([rng.choice(MODES)] if rng is not None else MODES):
-            for xs in _products(ends, len(shape)):
-                def en(k):
-                    return f"enter {mode} {k}".strip()
-                ev = [en(shape[0]), "set 0 i:1 - a"]
-                if len(shape) > 1:
-                    ev += [en(shape[1]), "set 2 t:2 8 a", "delete 4"]
-                    if len(shape) > 2:
-                        ev += [en(shape[2]), "incr 0 1 -", "set 4 t:3 - nx", f"exit {xs[2]}", "get 4"]
-                    ev += [f"exit {xs[1]}", "get 2"]
-                ev += ["set 4 t:5 16 a", "adv 1", "get 0", f"exit {xs[0]}", "getexpire 4"]
-                ev += [en(shape[0]), en(shape[0]), "delete 0", "exit ok", "incr 2 1 -", "exit ok"]
-                yield {"config": "facade", "init": ["set 4 i:1 - a", "adv 3"], "events": ev}
+            for pat in _products(ends, len(shape)):
+                # X = left by an exception: an Exception, a non-Exception BaseException, or a cancellation
+                if rng is not None:
+                    variants = [tuple(rng.choice(["exc", "base", "cancel"]) if x == "X" else x for x in pat)]
+                else:
+                    variants = [tuple(sub if x == "X" else x for x in pat) for sub in (["exc", "base", "cancel"] if "X" in pat else ["exc"])]
+                for xs in variants:
+                    yield _nesting_case(shape, mode, xs)
+
+
+def _nesting_case(shape, mode, xs):
+    def en(k):
+        return f"enter {mode} {k}".strip()
+    ev = [en(shape[0]), "set 0 i:1 - a"]
+    if len(shape) > 1:
+        ev += [en(shape[1]), "set 2 t:2 8 a", "delete 4"]
+        if len(shape) > 2:
+            ev += [en(shape[2]), "incr 0 1 -", "set 4 t:3 - nx", f"exit {xs[2]}", "get 4"]
+        ev += [f"exit {xs[1]}", "get 2"]
+    ev += ["set 4 t:5 16 a", "adv 1", "get 0", f"exit {xs[0]}", "getexpire 4"]
+    ev += [en(shape[0]), en(shape[0]), "delete 0", "exit ok", "incr 2 1 -", "exit ok"]
+    return {"config": "facade", "init": ["set 4 i:1 - a", "adv 3"], "events": ev}
 
 
 DEFAULT_ALPHABET = ["n", "i:0", "i:1", "t:1"]
